@@ -35,6 +35,11 @@ class LimitGatedScheduler {
     impl_->wait();
   }
 
+  // Records the exception currently being handled in the task set (which also cancels the set).
+  static void captureCurrentException(ConcurrentTaskSet& tasks) {
+    tasks.trySetCurrentException();
+  }
+
  private:
   // Put the guts within a unique_ptr to enable this type to be movable.
   class Impl {
@@ -380,22 +385,29 @@ class Pipe<StageClass::kGenerator, CurStage, PipeNext> {
     ssize_t numThreads = std::max<ssize_t>(
         1, std::min(tasks_.numPoolThreads(), StageLimits<CurStage>::limit(stage_)));
     completion_ = std::make_unique<CompletionEventImpl>(static_cast<int>(numThreads));
+    // The completion event is signaled when the generator instance's closure is destroyed, not
+    // inside its body: the closure is destroyed whether the instance ran to the end, let an
+    // exception escape (e.g. a downstream stage run inline threw), or was never run at all because
+    // the task set was canceled by another stage's exception while the instance was still queued.
+    // (Signaling from inside the body left wait() stuck on completion_->wait(0) in that last case.)
+    struct CompletionToken {
+      explicit CompletionToken(CompletionEventImpl* c) : completion(c) {}
+      CompletionToken(CompletionToken&& other) noexcept : completion(other.completion) {
+        other.completion = nullptr;
+      }
+      CompletionToken(const CompletionToken&) = delete;
+      CompletionToken& operator=(const CompletionToken&) = delete;
+      ~CompletionToken() {
+        if (completion &&
+            completion->intrusiveStatus().fetch_sub(1, std::memory_order_acq_rel) == 1) {
+          completion->notify(0);
+        }
+      }
+      CompletionEventImpl* completion;
+    };
     for (ssize_t i = 0; i < numThreads; ++i) {
-      tasks_.schedule([this]() {
-        // RAII guard ensures the completion event is signaled even if an exception
-        // propagates out of pipeNext_.execute() (e.g. when ConcurrentTaskSet runs a
-        // downstream stage inline and it throws). Without this, wait() would hang on
-        // completion_->wait(0) because the count is never decremented.
-        struct CompletionGuard {
-          DISPENSO_INLINE ~CompletionGuard() {
-            if (completion->intrusiveStatus().fetch_sub(1, std::memory_order_acq_rel) == 1) {
-              completion->notify(0);
-            }
-          }
-          CompletionEventImpl* completion;
-        };
-        CompletionGuard cGuard{completion_.get()};
-
+      tasks_.schedule([this, token = CompletionToken(completion_.get())]() {
+        (void)token;
         while (!tasks_.hasException()) {
           auto op = stage_();
           if (!op) {
